@@ -136,6 +136,10 @@ type e2eFlow struct {
 	// processor, behind it (a fan-out): the engine runs such siblings too, so the request side produces several
 	// early responses - the first one, the chain's, is the answer
 	Fan []e2eProc `json:"fan_out_of_further_answering_processors,omitempty"`
+	// Bare: the transaction's frames carry no header at all - "empty" = the headers argument is the empty text,
+	// "missing" = the frames have no headers argument (an HTTP/1.0 request without Host, a response without header
+	// lines); the header edits of the flow must reach the proxy all the same
+	Bare string `json:"frames_without_headers,omitempty"`
 }
 
 type e2eCase struct {
@@ -179,6 +183,7 @@ func genE2ECase() *rapid.Generator[e2eCase] {
 			// half of the flows whose request chain ends in an answering processor get a fan-out of further answering
 			// processors behind it: another answer, and (mostly) a copy of the first one after that
 			f := &c.Flows[len(c.Flows)-1]
+			f.Bare = rapid.SampledFrom([]string{"", "", "", "", "empty", "missing"}).Draw(t, "bare")
 			for _, p := range f.Req {
 				if p.Kind != "gen" {
 					continue
@@ -342,7 +347,13 @@ func e2eSend(name, url string, headers string, status int64) (d decoded, err err
 	k.Add("url", url)
 	k.Add("path", url[strings.Index(url, "/"):])
 	k.Add("query", "")
-	k.Add("headers", headers+"\r\n\r\n") // the proxy's dump format: every line CRLF-terminated, then the closing empty line
+	switch headers {
+	case "\x00missing":
+	case "":
+		k.Add("headers", "")
+	default:
+		k.Add("headers", headers+"\r\n\r\n") // the proxy's dump format: every line CRLF-terminated, then the closing empty line
+	}
 	k.Add("body", []byte(""))
 	if name == "lunar-on-response" {
 		k.Add("status", status)
@@ -398,7 +409,14 @@ func e2eNonTrivial(procs []e2eProc) bool {
 func checkE2EFlow(idx int, f e2eFlow, shutdownBeforeResponse bool) error {
 	url := fmt.Sprintf("h.com/c%d", idx)
 	// the client's own value of x-a must not survive an edit of x-a and must not be touched otherwise
-	d, err := e2eSend("lunar-on-request", url, "host: h.com\r\nx-a: orig", 0)
+	reqHeaders, respHeaders := "host: h.com\r\nx-a: orig", "content-type: text/plain\r\nx-b: orig"
+	switch f.Bare {
+	case "empty":
+		reqHeaders, respHeaders = "", ""
+	case "missing":
+		reqHeaders, respHeaders = "\x00missing", "\x00missing"
+	}
+	d, err := e2eSend("lunar-on-request", url, reqHeaders, 0)
 	if err != nil {
 		return err
 	}
@@ -462,7 +480,7 @@ func checkE2EFlow(idx int, f e2eFlow, shutdownBeforeResponse bool) error {
 		contextmanager.Get().WithContext(ctx)
 		defer contextmanager.Get().WithContext(context.Background())
 	}
-	d, err = e2eSend("lunar-on-response", url, "content-type: text/plain\r\nx-b: orig", 200)
+	d, err = e2eSend("lunar-on-response", url, respHeaders, 200)
 	if err != nil {
 		return err
 	}
